@@ -14,7 +14,7 @@ RULE = ("seeded models with random cost rates (incl. 0), absence patterns and ru
 ASSUMPTIONS = ["unit_time = 1", "models <= 8 tasks"]
 LEVEL_TEXT = "Seeded exploration; the full cost hierarchy is recomputed from the state logs for every step of every run."
 LEVEL_NOTE = "Trusted: the recomputation in the oracle; sampling evidence only."
-PROBES = ["history_runs", "edit_runs", "charged_worker_step", "charged_facility_step", "zero_cost_working_resource", "absence_step_zero_cost",
+PROBES = ["history_runs", "edit_runs", "backward_runs", "charged_worker_step", "charged_facility_step", "zero_cost_working_resource", "absence_step_zero_cost",
           "individually_absent_holder_not_charged"]
 
 
@@ -33,6 +33,8 @@ def gen(rng, tier):
     spec = C.forward_spec(rng, tier, focus)
     if rng.random() < 0.3:
         spec["history"] = {"k": rng.randint(0, 8), "state": rng.random() < 0.5, "log": rng.random() < 0.5}
+    elif rng.random() < 0.15:
+        spec["backward"] = {"due": rng.random() < 0.3, "reverse": rng.random() < 0.7}
     elif rng.random() < 0.2:
         ed = [rng.randint(0, 10) for _ in range(rng.randint(1, 4))]
         if rng.random() < 0.5 and spec["cfg"].get("absence"):
@@ -47,6 +49,10 @@ def extra_candidates(spec):
     if spec.get("history") is not None:
         c = dict(spec)
         c.pop("history")
+        yield c
+    if spec.get("backward") is not None:
+        c = dict(spec)
+        c.pop("backward")
         yield c
     if spec.get("edit"):
         c = dict(spec)
@@ -136,7 +142,22 @@ def check_logs(res, project, ix, absence, exact, steps_t=None, prefix="C07"):
 def run(spec):
     from .. import scen
     hist = spec.get("history")
-    if hist is None:
+    if spec.get("backward") is not None:
+        # backward simulation (logs reversed or not): the accounting must add up at every level, index by index
+        from .. import build as B
+        scen.setup_run(spec.get("seed", 0))
+        tr = scen.Trace()
+        tr.model, tr.cfg = spec["model"], spec["cfg"]
+        tr.built = B.build(spec["model"], spec.get("ranks"))
+        tr.project = tr.built.project
+        tr.rec, tr.out = scen.simulate(tr.project, spec["cfg"], want_snap=False, backward=spec["backward"])
+        tr.ix = tr.rec.ix
+        tr.absence = set()  # resources are logged ABSENCE at absence steps, which the state-based oracle charges 0 anyway
+        tr.history, tr.log_offset = None, 0
+        res = C.base_result(tr)
+        res.count("backward_runs")
+        steps_t = None
+    elif hist is None:
         tr = C.run_forward(spec)
         res = C.base_result(tr)
         steps_t = [s.t for s in C.full_steps(tr.rec)]
